@@ -115,6 +115,10 @@ func genC05(g GenCtx) interface{} {
 			mk()
 			nNodes--
 		}
+		if len(b.kinds) > 2 && rng.Intn(12) == 0 {
+			// a sibling leaves mid-stream (never the witness): everybody else must not notice
+			sc.Acts = append(sc.Acts, TAct{Op: "close", Node: 1 + rng.Intn(len(b.kinds)-1), Async: rng.Intn(2) == 0})
+		}
 		if rng.Intn(15) == 0 {
 			sc.Acts = append(sc.Acts, TAct{Op: "check"})
 			inflight = 0
